@@ -1,9 +1,11 @@
 (* Property C09 — Counts, degrees, density and the adjacency matrix agree with the edge multiset.
    Only pinned statements; proofs in Proofs/DegreeOk.v. *)
-From Coq Require Import List Bool Arith Permutation.
-From GV Require Import Base.Outcome Base.AMap Model.GState Model.Creation Model.Query Spec.AGraph.
+From Coq Require Import List Bool Arith Permutation ZArith QArith.
+From GV Require Import Base.Outcome Base.AMap Model.GState Model.Creation Model.Query Model.Derived Spec.AGraph.
 From GV Require Import Proofs.WFDefs Proofs.QueryOk Proofs.DegreeOk.
 Import ListNotations.
+Close Scope Q_scope.
+Open Scope nat_scope.
 
 Section C09.
   Context {T A : Type}.
@@ -41,7 +43,7 @@ Section C09.
   (* handshake identities *)
   Theorem C09_handshake : forall (g : gstate),
     WF g ->
-    sum_over (fun x => out_deg teqb g x + in_deg teqb g x) (names g) = 2 * length (flat_map snd (edges g)).
+    sum_over (fun x => out_deg teqb g x + in_deg teqb g x)%nat (names g) = (2 * length (flat_map snd (edges g)))%nat.
   Proof. exact (handshake teqb tltb teqb_spec). Qed.
 
   Theorem C09_out_degrees_sum : forall (g : gstate),
@@ -51,4 +53,23 @@ Section C09.
   Theorem C09_in_degrees_sum : forall (g : gstate),
     WF g -> sum_over (in_deg teqb g) (names g) = length (flat_map snd (edges g)).
   Proof. exact (in_degrees_sum teqb tltb teqb_spec). Qed.
+
+  (* density of a single-edge graph with n >= 2: m/(n(n-1)), doubled when undirected *)
+  Theorem C09_density : forall (g : gstate),
+    WF g -> multi (sp g) = false -> (2 <= length (nodes_vec g))%nat ->
+    let m := Z.of_nat (length (flat_map snd (edges g))) in
+    let n := Z.of_nat (length (nodes_vec g)) in
+    exists q, get_density g = Some q /\
+              Qeq q ((if directed (sp g) then inject_Z m else inject_Z (2 * m)%Z) / inject_Z (n * (n - 1))%Z).
+  Proof. exact (density_spec teqb tltb teqb_spec). Qed.
+
+  (* degree centrality for n >= 2: one entry per node, degree / (n - 1) *)
+  Theorem C09_degree_centrality : forall (g : gstate),
+    WF g -> (2 <= length (nodes_vec g))%nat ->
+    exists l, degree_centrality teqb tltb g = Ok l /\
+              map fst l = names g /\
+              forall x q, In (x, q) l ->
+                Qeq q (inject_Z (Z.of_nat (out_deg teqb g x + in_deg teqb g x)) /
+                       inject_Z (Z.of_nat (length (nodes_vec g)) - 1)).
+  Proof. exact (degree_centrality_spec teqb tltb teqb_spec tltb_total). Qed.
 End C09.
